@@ -299,7 +299,27 @@ def rule_top(prog, rows):
 
 
 def _helper_side(prog, helper, clo, side):
-    def f(body, op, at=None):
+    """side function inside a helper the handler `clo` calls: a helper parameter is mapped through the call sites *in that
+    handler* (and in what it calls) only — other handlers may call the same helper with other operands
+    (`checked_decimal_op("+", a, Decimal::ONE)` in `++`), which says nothing about this one"""
+    mine = set(prog.reach([getattr(clo, 'orig_id', clo.id)])) | {getattr(clo, 'orig_id', clo.id)}
+
+    def f(body, op, at=None, depth=0):
+        if depth > 4:
+            return None
+        origins = trace_operand_at(body, op, at, through_calls=SIDE_THROUGH) if at is not None else trace_operand(body, op, through_calls=SIDE_THROUGH)
+        o = single_origin(origins)
+        if o is not None and o.kind == 'param' and not body.is_closure and getattr(body, 'orig_id', body.id) != getattr(clo, 'orig_id', clo.id):
+            res = set()
+            for caller_id in prog.callers.get(getattr(body, 'orig_id', body.id), ()):
+                if caller_id not in mine:
+                    continue
+                for c in prog.edge_sites.get((caller_id, getattr(body, 'orig_id', body.id)), []):
+                    if o.data - 1 < len(c.args):
+                        cb = c.body
+                        res.add(f(cb, c.args[o.data - 1], c.bb, depth + 1) if not (cb.is_closure or cb is clo) else side(cb, c.args[o.data - 1], c.bb))
+            if res:
+                return res.pop() if len(res) == 1 else None
         return side(body, op, at)
     return f
 
